@@ -298,6 +298,19 @@ static void cmd_num(int nt, char **t)
 	ob_printf(&out, "= i32=%d,%d i64=%" PRId64 ",%d u64=%" PRIu64 ",%d dbl=%016" PRIx64 ",%d bool=%d type=%d", a, e1, b, e2, c, e3, bits, e4, bo, (int)json_object_get_type(o));
 }
 
+/* NUMS <h> <errno>: like NUM, but every getter is entered with errno = <errno> left over from earlier, unrelated calls (most callers never clear it): the VALUES must be what they always are */
+static void cmd_nums(int nt, char **t)
+{
+	int h = hidx(t[1]); struct json_object *o = H[h]; int32_t a; int64_t b; uint64_t c; double d; uint64_t bits; int e1, e2, e3, e4, bo, st = (int)L(t[2]);
+	(void)nt;
+	errno = st; a = json_object_get_int(o); e1 = errno;
+	errno = st; b = json_object_get_int64(o); e2 = errno;
+	errno = st; c = json_object_get_uint64(o); e3 = errno;
+	errno = st; d = json_object_get_double(o); e4 = errno;
+	errno = st; bo = json_object_get_boolean(o);
+	memcpy(&bits, &d, 8);
+	ob_printf(&out, "= i32=%d,%d i64=%" PRId64 ",%d u64=%" PRIu64 ",%d dbl=%016" PRIx64 ",%d bool=%d type=%d", a, e1, b, e2, c, e3, bits, e4, bo, (int)json_object_get_type(o));
+}
 /* SET <h> <kind> <value>   kind: i32 i64 u64 dbl(hex bits) bool  -> = <ret> */
 static void cmd_set(int nt, char **t)
 {
@@ -1364,6 +1377,7 @@ static void dispatch(int nt, char **t)
 	else if (!strcmp(c, "GSTR")) cmd_gstr(nt, t);
 	else if (!strcmp(c, "SSTRP")) cmd_sstrp(nt, t);
 	else if (!strcmp(c, "SSELF")) cmd_sself(nt, t);
+	else if (!strcmp(c, "SSER")) { int r = json_object_set_string(H[hidx(t[1])], json_object_to_json_string_ext(H[hidx(t[1])], 0)); ob_printf(&out, "= %d", r); }   /* the node's own serialization (text the node itself hands out) as the new contents */
 	else if (!strcmp(c, "GSTRC")) cmd_gstrc(nt, t);
 	else if (!strcmp(c, "FAILNEXT")) cmd_failnext(nt, t);
 	else if (!strcmp(c, "EQ")) cmd_eq(nt, t);
@@ -1375,6 +1389,7 @@ static void dispatch(int nt, char **t)
 	else if (!strcmp(c, "PB")) cmd_pb(nt, t);
 	else if (!strcmp(c, "PBGIANT")) cmd_pbgiant(nt, t);
 	else if (!strcmp(c, "NUM")) cmd_num(nt, t);
+	else if (!strcmp(c, "NUMS")) cmd_nums(nt, t);
 	else if (!strcmp(c, "SET")) cmd_set(nt, t);
 	else if (!strcmp(c, "INC")) cmd_inc(nt, t);
 	else if (!strcmp(c, "PUT")) cmd_put(nt, t);
